@@ -3,4 +3,6 @@ pub mod swiftness_stark {
 //@include stark/queries.rs
 //@include stark/types.rs
 //@include stark/oods.rs
+//@include stark/commit.rs
+//@include stark/verify.rs
 } // mod swiftness_stark
